@@ -156,7 +156,7 @@ REG = {
         "level_note": "Socket level (TestC09Socket): a live server in a child process; read callbacks keep every *Message (optionally handing it to another goroutine, optionally sleeping up to 2 ms while the next frames arrive); at the end of the scenario - after all later traffic and after the connection closed - every kept message is compared with its delivery-time snapshot inside the child, and the replies must be the C06 replies of their own requests.",
         "rule": "rapid histories as in C04/C05 plus 1..4 later frames; non-trivial = at least two reads follow the first delivery",
         "assumptions": [],
-        "required_buckets": {"any": ["plain", "fragmented", "cleanup", "handoff", "hold_2000us", "sub_packaged", "transfer_incomplete_at_close"]},
+        "required_buckets": {"any": ["plain", "fragmented", "cleanup", "handoff", "hold_2000us", "sub_packaged", "transfer_incomplete_at_close", "re-request_sent_in_between"]},
         "parts": [
             rapid("ext", "TestC09Extractor", 8000, 80000),
             rapid("sys", "TestC09Socket", 60, 800, qs=12, ts=16),
